@@ -29,10 +29,12 @@ Definition export2 (s : l2state) : genesis2 :=
      h_info := info s;
      h_pairs := merge_sort lex_le (map_to_list (pairs s)) |}.
 
-(* ValidateGenesis: no two validators with the same consensus key, at most MaxValidators
+(* ValidateGenesis: no two validators with the same operator address (repair D13) or the same
+   consensus key, at most MaxValidators
    validators (repair D6), next L2 sequence >= 1, bridge info valid when present, valid denoms,
    valid params *)
 Definition validate2 (c : cfg) (g : genesis2) : bool :=
+  bool_decide (NoDup (h_vals g).*1) &&
   bool_decide (NoDup (v_key ∘ snd <$> h_vals g)) &&
   (N.of_nat (length (h_vals g)) <=? p_maxv (h_params g))%N &&
   (1 <=? h_next_l2 g)%N &&
